@@ -122,7 +122,7 @@ class SymmetricBandToeplitzOperator(AbstractLinearOperator):
         H = jnp.fft.fft(kernel, x.shape[-1] + 2 * half_band_width)
         x_padded = jnp.pad(x, (0, 2 * half_band_width), mode='constant')
         X_padded = jnp.fft.fft(x_padded)
-        Y_padded = jnp.fft.ifft(X_padded * H).real.astype(x.dtype)
+        Y_padded = jnp.fft.ifft(X_padded * H).real.astype(self._real_dtype(x))
         if half_band_width == 0:
             return Y_padded
         return Y_padded[half_band_width:-half_band_width]
@@ -170,13 +170,13 @@ class SymmetricBandToeplitzOperator(AbstractLinearOperator):
         x_padding_start = overlap
         x_padding_end = total_length - overlap - l
         x_padded = jnp.pad(x, (x_padding_start, x_padding_end), mode='constant')
-        y = jnp.zeros(l + x_padding_end, dtype=x.dtype)
+        y = jnp.zeros(l + x_padding_end, dtype=self._real_dtype(x))
 
         def func(iblock, y):  # type: ignore[no-untyped-def]
             position = iblock * step_size
             x_block = lax.dynamic_slice(x_padded, (position,), (self.fft_size,))
             X = jnp.fft.fft(x_block)
-            y_block = jnp.fft.ifft(X * H).real.astype(x.dtype)
+            y_block = jnp.fft.ifft(X * H).real.astype(y.dtype)
             y = lax.dynamic_update_slice(
                 y, lax.dynamic_slice(y_block, (2 * half_band_width,), (step_size,)), (position,)
             )
@@ -184,6 +184,13 @@ class SymmetricBandToeplitzOperator(AbstractLinearOperator):
 
         y = lax.fori_loop(0, nblock, func, y)
         return y[half_band_width : half_band_width + l]
+
+    @staticmethod
+    def _real_dtype(x: Array) -> jnp.dtype:  # type: ignore[type-arg]
+        """The dtype of the FFT-based results: that of the input if it is floating."""
+        if jnp.issubdtype(x.dtype, jnp.floating):
+            return x.dtype
+        return jnp.zeros(0).dtype
 
     def _get_kernel(self, band_values: Array) -> Array:
         """[4, 3, 2, 1] -> [1, 2, 3, 4, 3, 2, 1]"""
